@@ -129,6 +129,9 @@ pub fn lines_strategy() -> impl Strategy<Value = InputCase> {
             "@@éa {1}", "@@green  pesto {}", "@@./dir/é name{}", "@@pesto{} @@tomato sauce  {2%kg}", "@@bechamel{}\n>> ab: 1\n>> abc: 2\n>> abcd: 3", "@&./sauces/tomato{}", "@+&../basics/pesto{}", "@./a/b{} @&./a/b{}", "@./my [- c -] sauces/tomato [- d -] sauce{1%kg}",
             "\u{feff}---\ntitle: Café\n---\nAñade @sal{1%g} y más ñ\n", "\u{feff}\n---\nk: é\n---\nñandú @ñame{} é", "\u{feff}>> title: Soup", "\u{feff}---\ntitle: x\n---\n@a{}", "\u{feff}>> [mode]: steps", "@sea salt{ [- to taste -] }", "#pan{[- 1 -]}", "~rest{ [-é-] }", "-18 °C now", "#freezer{}-18 °C", "---\nservings: []\n---\n@a{1%kg}",
             "---\ntime: {prep: 10, cook: until golden}\n---", "---\ntime:\n  prep: 10 min\n  cook: 4294967296\n---", ">> [mode: steps\n@a{} @b{}", ">> [duplicate: ref",
+            "@&(1)&(1)mix{}", "#&(1)&(1)pan{}", "@&(1)?&(2)x{}", "@&(~1)+dough{}", "@+&(1)dough{}", ">> [mode]: steps\nAdd @+&salt{} now.", ">> [mode]: steps\n@salt{} @+&salt{1%g} #+&pan{}", "~-rest{5%min}", "~+a bit", "~&t{1%min}",
+            "@flour{1/0 kg}", "@flour{2 1/0 cups}", "~rest{1/0 min}", "@sugar{1-3/0 tbsp}", "@a{1\n%kg}", "@a{\n}", "@a{ -- c\n}", "@a{1 [- c -]kg}", "~{5 [- c -]min}", "#pan{1 [- c -]large}",
+            ">> note: serve  cold", ">> a: b  |  c", "@salt{1%tsp.}", "@milk{1%fl. oz.}",
             ">> serves: 4", ">> yield: 6|12", "@x{.05%g}", "@x{.05-.1%g}", "@x{.5 g}", "[---]", "[- x --] y", "[- a - b -]",
         ]).prop_map(|s| s.to_string()),
         // many old-style entries (the deprecation warning gets one label per entry)
